@@ -15,9 +15,9 @@ fn cfg_for(id: &str, quick: bool) -> (Cfg, u8) {
     .into_iter()
     .collect();
     match id {
-        "C32" => (Cfg { max_tokens: if quick { 2 } else { 3 }, api: true, reauth: false, validity: true, changepw: false, lifecycle: true, ticks: vec![1, GRACE + 1, SESSION + 1], props }, if quick { 3 } else { 6 }),
-        "C33" => (Cfg { max_tokens: if quick { 3 } else { 4 }, api: true, reauth: true, validity: false, changepw: false, lifecycle: false, ticks: vec![1, PRIV + 1, SESSION + 1], props }, if quick { 3 } else { 6 }),
-        _ => (Cfg { max_tokens: if quick { 2 } else { 3 }, api: false, reauth: true, validity: false, changepw: true, lifecycle: false, ticks: vec![1, GRACE + 1], props }, if quick { 4 } else { 6 }),
+        "C32" => (Cfg { max_tokens: if quick { 2 } else { 3 }, api: true, reauth: false, validity: true, changepw: false, lifecycle: true, trust: false, ticks: vec![1, GRACE + 1, SESSION + 1], props }, if quick { 3 } else { 6 }),
+        "C33" => (Cfg { max_tokens: if quick { 3 } else { 4 }, api: true, reauth: true, validity: false, changepw: false, lifecycle: false, trust: true, ticks: vec![1, PRIV + 1, SESSION + 1], props }, if quick { 3 } else { 6 }),
+        _ => (Cfg { max_tokens: if quick { 2 } else { 3 }, api: false, reauth: true, validity: false, changepw: true, lifecycle: false, trust: false, ticks: vec![1, GRACE + 1], props }, if quick { 4 } else { 6 }),
     }
 }
 
@@ -63,7 +63,7 @@ pub fn run(id: &'static str, args: &[String]) -> ! {
     }
     ctx.set("bound", format!("every sequence of <= {depth} operations; at most {} tokens alive in the history; after EVERY operation every token ever issued is presented again", cfg.max_tokens));
     ctx.set("depth", u64::from(depth));
-    ctx.set("alphabet", json!({"logins": ["password (privileged or not)", "password with the session record lost", "anonymous"], "api_tokens": cfg.api, "reauth": cfg.reauth, "logout_and_destroy": true, "validity_window_edits": cfg.validity, "credential_replacement": cfg.changepw, "ticks_s": cfg.ticks}));
+    ctx.set("alphabet", json!({"logins": ["password (privileged or not)", "password with the session record lost", "anonymous", if cfg.trust { "OAuth2 trust provider (privileged requested or not)" } else { "-" }], "api_tokens": cfg.api, "reauth": cfg.reauth, "logout_and_destroy": true, "validity_window_edits": cfg.validity, "credential_replacement": cfg.changepw, "ticks_s": cfg.ticks}));
     ctx.set("exhaustive", !rep.capped);
     if rep.capped {
         ctx.assume("the wall-clock cap was hit: the search is complete only below the stated depth");
